@@ -16,7 +16,8 @@ ID = "C06"
 PROPS = ["props/C06.v"]
 EXTRACTS = ["C06"]
 THEOREMS = [
-    "C06_roundtrip_multi", "C06_roundtrip_single_partial", "C06_roundtrip_multi_any_order",
+    "C06_roundtrip_multi", "C06_roundtrip_single_partial", "C06_roundtrip_default_format",
+    "C06_roundtrip_default_format_plain_partial", "C06_roundtrip_any_options_partial", "C06_roundtrip_multi_any_order",
     "C06_roundtrip_single_any_order_partial", "C06_edges_roundtrip_multi", "C06_wf_satisfiable",
     "C06_single_urls_refuted", "C06_single_via_prefix_refuted", "C06_placeholder_version_refuted",
     "C06_gen_constants_ok",
@@ -101,7 +102,7 @@ def _imports() -> _Real:
     from packaging.specifiers import SpecifierSet
     from packaging.version import Version, InvalidVersion
     R = _Real()
-    R.pkg_resources, R.urljoin = pkg_resources, urllib.parse.urljoin
+    R.pkg_resources, R.urljoin, R.urlsplit = pkg_resources, urllib.parse.urljoin, urllib.parse.urlsplit
     R.cmdline, R.dists, R.utils, R.solution = cmdline, dists, utils, solution
     R.DistInfo, R.Candidate, R.DistributionType, R.Repository = DistInfo, Candidate, DistributionType, Repository
     R.MultiRepository, R.PyPIRepository, R.IndexType, R.FindLinksRepository = MultiRepository, PyPIRepository, IndexType, FindLinksRepository
@@ -353,7 +354,7 @@ def observe_view(R, coll, roots, rng) -> List[Dict[str, Any]]:
             vias.append({"req": rnode.metadata.name, "mex": list(dict.fromkeys(mex)), "spec": str(req.specifier), "extras": ex})
         rng.shuffle(vias)
         link = node.metadata.candidate.link if node.metadata.candidate is not None else None
-        url = R.urljoin(link[0], link[1]) if link is not None else None
+        url = full_link(R, link) if link is not None else None
         pins.append({"name": node.metadata.name, "version": str(node.metadata.version), "hash": node.metadata.hash, "url": url, "via": vias})
     rng.shuffle(pins)
     return pins
@@ -389,7 +390,8 @@ def opts_tokens(o: Dict[str, Any]) -> str:
     else:
         at = " ".join(["S", hx(a["ver"]), hx(a["time"]), tl([hx(x) for x in a["inputs"]]), tl([hx(x) for x in a["repos"]]),
                        tl([hx(k) + " " + hx(v) for k, v in a["idx"]])])
-    return " ".join([str(int(o["multi"])), str(int(o["hashes"])), str(int(o["urls"])), at,
+    fmt = "N" if o["multi"] is None else "S " + str(int(o["multi"]))
+    return " ".join([fmt, str(int(o["hashes"])), str(int(o["urls"])), at,
                      tl([hx(x) for x in o["index"]]), tl([hx(x) for x in o["links"]])])
 
 
@@ -443,7 +445,21 @@ def parse_load_answer(ans: str) -> Dict[str, Any]:
 # ------------------------------------------------------------------------------------------
 # running the real writer / loader
 
-ALL_MODES = [(m, h, u, a) for m in (True, False) for h in (True, False) for u in (True, False) for a in (True, False)]
+# the format is explicit (True / False) or left to the tool (None = what the command line passes by default)
+ALL_MODES = [(m, h, u, a) for m in (True, False, None) for h in (True, False) for u in (True, False) for a in (True, False)]
+
+
+def spec_multi(multi, hashes, urls) -> bool:
+    """The layout the option set must lead to (the documented rule, not read from the code)."""
+    return bool(multi) if multi is not None else bool(hashes or urls)
+
+
+def full_link(R, link) -> str:
+    """The URL the writer prints for a candidate link (base, href): joined when the base is a URL,
+    the path below the directory for a local (find-links) base."""
+    if link[0] and R.urlsplit(link[0]).scheme:
+        return R.urljoin(link[0], link[1])
+    return link[1]
 
 
 def real_write(R, coll, roots, root_infos, repo, multi, hashes, urls, annotate) -> str:
@@ -494,11 +510,13 @@ def real_load(R, text: str, path: str) -> Dict[str, Any]:
     with open(path, "w", encoding="utf-8", newline="") as fh:
         fh.write(text)
     trace: List[Any] = []
+    trace_sources: List[List[str]] = []
     cls = R.solution.SolutionRepository
     orig = cls._add_sources
 
     def hook(self, req, sources, url=None, dist_hash=None):
         sources = list(sources)
+        trace_sources.append(sources)
         trace.append({"name": req.name, "specs": [v for _, v in req.specs], "n": len(sources),
                       "srcnames": [s.split(" ", 1)[0] for s in sources], "url": url, "hash": dist_hash})
         return orig(self, req, sources, url=url, dist_hash=dist_hash)
@@ -510,7 +528,7 @@ def real_load(R, text: str, path: str) -> Dict[str, Any]:
         except RecursionError:
             return {"status": "Diverged", "trace": trace}
         except Exception as ex:  # noqa: BLE001
-            return {"status": exc_class(R, ex), "trace": trace}
+            return {"status": exc_class(R, ex), "trace": trace, "last_sources": trace_sources[-1] if trace_sources else None}
     finally:
         cls._add_sources = orig
     sol = repo.solution
@@ -568,6 +586,34 @@ def _admissible(R, entries: List[Dict[str, Any]]) -> bool:
     return True
 
 
+_SRC_RE = re.compile(r"^(\S+)(?: \(([^\[\]()]*?)\s*(?:\[[^\]]*\])?\))?$")
+
+
+def _last_call_inadmissible(R, real: Dict[str, Any]) -> bool:
+    """The _add_sources call during which the real loader raised names a specifier that excludes the version of
+    its pin, or the pin itself as a requirer (graph surgery inside add_dist, C10's domain)."""
+    if not real.get("trace") or real.get("last_sources") is None:
+        return False
+    last = real["trace"][-1]
+    norm = R.utils.normalize_project_name
+    try:
+        V = R.Version(last["specs"][0])
+    except Exception:
+        return False
+    for src in real["last_sources"]:
+        m = _SRC_RE.match(src)
+        if not m:
+            continue
+        if norm(m.group(1).split("[")[0]) == norm(last["name"]):
+            return True
+        try:
+            if m.group(2) and not R.SpecifierSet(m.group(2)).contains(V, prereleases=True):
+                return True
+        except Exception:
+            continue
+    return False
+
+
 def compare_load(R, ctx: Ctx, where: str, text: str, real: Dict[str, Any], model: Dict[str, Any]) -> str:
     """Returns the class of the case; reports mismatches."""
     ms = model["status"]
@@ -577,6 +623,9 @@ def compare_load(R, ctx: Ctx, where: str, text: str, real: Dict[str, Any], model
         ctx.mismatch(where + ":model-answer", text, real["status"], model)
         return "bad"
     norm = R.utils.normalize_project_name
+    if ms in ("OK", "NotAnnotated", "ValueError") and real["status"] == "ValueError" and ms != "ValueError" and _last_call_inadmissible(R, real):
+        # same thing when the model fails later in the file: the real loader stopped at an earlier entry
+        return "graph-level-error"
     if ms == "OK" and real["status"] == "ValueError" and not _admissible(R, model["entries"]):
         # the text names a specifier that excludes the pinned version, or a project requiring itself: add_dist
         # discards / re-enters nodes and _add_sources turns whatever the graph raises into ValueError (C10's model)
@@ -627,12 +676,7 @@ def compare_load(R, ctx: Ctx, where: str, text: str, real: Dict[str, Any], model
     # edges are compared over all entries (placeholder-version pins are dropped from the view but their
     # requirements were recorded); the model's `edges` is evaluated on the view, so add the dropped ones here
     medges = sorted((rk, pn, tuple(ex), canon_spec(R, sp), tuple(mex)) for (rk, pn, ex, sp, mex) in model["edges"])
-    def _is_placeholder(v: str) -> bool:
-        try:
-            return R.Version(v) == R.Version("0+missing")
-        except Exception:
-            return False
-    dropped = [p for p in model["entries"] if _is_placeholder(p["version"])]
+    dropped: List[Dict[str, Any]] = []   # nothing is dropped any more: placeholders are told by their origin
     redges = real["edges"]
     if dropped:
         dn = {p["name"] for p in dropped}
@@ -762,7 +806,7 @@ def correspondence(ctx: Ctx) -> None:
     corpus_cases(R, ctx, sol_path)
     grid_checks(R, ctx)
 
-    ngraphs = ctx.n(130, 2500)
+    ngraphs = ctx.n(110, 2000)
     wlines: List[str] = []
     wmeta: List[Any] = []
     for gi in range(ngraphs):
@@ -792,7 +836,7 @@ def correspondence(ctx: Ctx) -> None:
     texts: List[Tuple[str, Dict[str, Any]]] = []
     for meta, ans in zip(wmeta, answers):
         o = meta["opts"]
-        mode = "multi" if o["multi"] else "single"
+        mode = {True: "multi", False: "single", None: "default"}[o["multi"]]
         ctx.count("write:" + mode + (":hashes" if o["hashes"] else "") + (":urls" if o["urls"] else "") + (":annotate" if o["annot"] else ""))
         mtext = unhx(ans) if not ans.startswith("!") else ans
         ctx.case(key=("W", json.dumps(o, sort_keys=True), json.dumps(meta["view"], sort_keys=True)), nontrivial=nontrivial_view(meta["view"]),
@@ -829,7 +873,7 @@ def correspondence(ctx: Ctx) -> None:
         ctx.count("load:" + kind + ":" + cls)
         if meta is not None and cls == "unmodelled":
             o = meta["opts"]
-            ctx.count("unmodelled-by-mode:" + ("multi" if o["multi"] else "single") + (":urls" if o["urls"] else ""))
+            ctx.count("unmodelled-by-mode:" + {True: "multi", False: "single", None: "default"}[o["multi"]] + (":urls" if o["urls"] else ""))
         ctx.case(key=("L", text), nontrivial=(cls == "ok-graph" and len(model.get("view", [])) >= 2 and any(e[2] or e[3] for e in model["edges"])),
                  sample={"kind": "load", "text": text, "real": real["status"], "model": model["status"]} if ctx.evaluations % 997 == 0 else None)
         if meta is not None:
@@ -839,10 +883,16 @@ def correspondence(ctx: Ctx) -> None:
     wf_ans = run_model("C06", ["F " + opts_tokens(m["opts"]) + " " + " ".join(c.split()) for (_, m, _, _), c in zip(wf_meta, canon_ans)])
     for (text, meta, real, model), cans, wans in zip(wf_meta, canon_ans, wf_ans):
         cview = Tok(cans.split()).view()
-        wfm, wfs = wans.split()
+        wfm, wfs, wfa, mmulti = wans.split()
         o = meta["opts"]
-        wf = (wfm == "1") if o["multi"] else (wfs == "1")
-        ctx.count("wf:" + ("multi" if o["multi"] else "single") + ":" + ("yes" if wf else "no"))
+        # wf_auto covers explicit and default formats; it must agree with the per-format predicates
+        wf = wfa == "1"
+        if wf != ((wfm == "1") or (wfs == "1")):
+            ctx.mismatch("wf_auto-vs-wf_multi/wf_single", {"opts": o, "view": meta["view"]}, [wfm, wfs], wfa)
+        ctx.count("wf:" + {True: "multi", False: "single", None: "default"}[o["multi"]] + ":" + ("yes" if wf else "no"))
+        if o["multi"] is None and (mmulti == "1") != spec_multi(None, o["hashes"], o["urls"]):
+            # the layout the tool picks on its own must be the documented one
+            ctx.mismatch("default-format-rule", {"opts": o}, spec_multi(None, o["hashes"], o["urls"]), mmulti)
         if wf:
             expect = [dict(p, hash=(p["hash"] if o["hashes"] else None), url=(p["url"] if o["urls"] else None)) for p in cview]
             got = model.get("view") if model["status"] == "OK" else model["status"]
@@ -952,7 +1002,8 @@ def coq_opts(o: Dict[str, Any]) -> str:
         cs(a["ver"]), cs(a["time"]), cl([cs(x) for x in a["inputs"]]), cl([cs(x) for x in a["repos"]]),
         cl(["(" + cs(k) + ", " + cs(v) + ")" for k, v in a["idx"]])))
     b = lambda x: "true" if x else "false"  # noqa: E731
-    return f"(mkOpts {b(o['multi'])} {b(o['hashes'])} {b(o['urls'])} {at} {cl([cs(x) for x in o['index']])} {cl([cs(x) for x in o['links']])})"
+    fmt = "None" if o["multi"] is None else "(Some " + b(o["multi"]) + ")"
+    return f"(mkOpts {fmt} {b(o['hashes'])} {b(o['urls'])} {at} {cl([cs(x) for x in o['index']])} {cl([cs(x) for x in o['links']])})"
 
 
 def coq_recheck(ctx: Ctx, metas: List[Dict[str, Any]], loads: List[Tuple[str, Dict[str, Any]]]) -> None:
@@ -1054,7 +1105,7 @@ def oracle_roundtrip(R, g: Dict[str, Any], mode: Tuple[bool, bool, bool, bool], 
             continue
         link = md.candidate.link
         want_pins[node.key] = (md.name, str(md.version), (md.hash or None) if hashes else None,
-                               R.urljoin(link[0], link[1]) if (urls and link is not None) else None)
+                               full_link(R, link) if (urls and link is not None) else None)
         for rdep in node.reverse_deps:
             if rdep.metadata is None:
                 continue
@@ -1095,13 +1146,12 @@ def oracle_roundtrip(R, g: Dict[str, Any], mode: Tuple[bool, bool, bool, bool], 
 def graph_in_guard(R, g: Dict[str, Any], mode) -> bool:
     """Cheap Python rendering of the theorems' guard, used by the oracle search to prefer inputs inside it."""
     multi, hashes, urls, annotate = mode
-    if not multi and urls and any(p["link"] for p in g["projects"]):
-        return False
+    multi = spec_multi(multi, hashes, urls)
     for p in g["projects"]:
-        if R.Version(p["version"]) == R.Version("0+missing") or p["hash"] == "" or "--hash" in p["name"]:
+        if p["hash"] == "" or "--hash" in p["name"]:
             return False
         if p["link"] is not None:
-            u = R.urljoin(p["link"][0], p["link"][1])
+            u = full_link(R, p["link"])
             base = u.split("#")[0]
             if " " in u or u.startswith("via") or not (base.startswith(("http://", "https://")) or base.endswith((".whl", ".gz", ".tgz", ".zip", ".tar", ".bz2"))):
                 return False
@@ -1117,8 +1167,8 @@ def graph_in_guard(R, g: Dict[str, Any], mode) -> bool:
             return False
         if nm.endswith((".whl", ".gz", ".tgz", ".zip", ".tar", ".bz2")) or nm.startswith(("http://", "https://")) or " " in nm or "#" in nm:
             return False
-        if not multi and not annotate and nm.lower().startswith("via"):
-            return False
+        if not multi and not annotate and nm == "via":
+            return False     # "# via (>1)" cannot be told from pip-compile's "# via x" layout (known, design)
     return True
 
 
